@@ -3,6 +3,7 @@ package main
 // C03/selfclose-guard — the self-closing rewrite touches only elements whose opening and closing tag names agree.
 
 import (
+	"regexp/syntax"
 	"fmt"
 	"go/constant"
 	"regexp"
@@ -104,5 +105,52 @@ func checkSelfClosingGuard(c *Ctx, r *Report) {
 	})
 	if n == 0 {
 		r.Unk(rule, "rewrite in ForceSelfClosingTags", c.Pos(fn.Pos()), "no Replace call found: the rewrite idiom is not one the rule knows")
+	}
+}
+
+// checkEmptyTagPatternPrefix: ForceSelfClosingTags re-emits a matched element as "<" + group 1 + group 2 + "/>", so
+// group 1 has to start right behind the "<" of the opening tag: anything the pattern lets match between the two (an
+// optional namespace prefix, say) is silently dropped from the rewritten element.
+func checkEmptyTagPatternPrefix(c *Ctx, r *Report) {
+	rule := "C03/selfclose-guard"
+	pat := c.LookupConst("driver/netconf", "emptyTagPattern")
+	if pat == nil {
+		r.Anchor(rule, "netconf.emptyTagPattern")
+		return
+	}
+	re, err := syntax.Parse(constant.StringVal(pat.Val()), syntax.Perl)
+	if err != nil {
+		r.Bad(rule, "emptyTagPattern", c.Pos(pat.Pos()), "does not compile: "+err.Error())
+		return
+	}
+	construct := "emptyTagPattern: group 1 starts right behind '<'"
+	if re.Op != syntax.OpConcat {
+		r.Unk(rule, construct, c.Pos(pat.Pos()), "the pattern is not a concatenation")
+		return
+	}
+	idx := -1
+	for i, sub := range re.Sub {
+		if sub.Op == syntax.OpCapture && sub.Cap == 1 {
+			idx = i
+		}
+	}
+	if idx < 0 {
+		r.Unk(rule, construct, c.Pos(pat.Pos()), "group 1 is not a top-level element of the pattern")
+		return
+	}
+	ok := idx >= 1
+	for _, sub := range re.Sub[:idx] {
+		if sub.Op != syntax.OpLiteral {
+			ok = false
+		}
+	}
+	if ok {
+		last := re.Sub[idx-1]
+		ok = len(last.Rune) > 0 && last.Rune[len(last.Rune)-1] == '<'
+	}
+	if ok {
+		r.OK(rule, construct, c.Pos(pat.Pos()), "only the literal '<' precedes group 1")
+	} else {
+		r.Bad(rule, construct, c.Pos(pat.Pos()), "the pattern can match text between the '<' of the opening tag and group 1 (e.g. an optional namespace prefix): ForceSelfClosingTags rebuilds the element from groups 1 and 2 only, so that text is dropped -- <if:shutdown></if:shutdown> becomes <shutdown/>, an element of a different namespace")
 	}
 }
